@@ -9,7 +9,7 @@ decision model written from the property statement says what must happen.
 """
 import itertools
 
-from sim import gen, kernel, net, reqs, world
+from sim import gen, kernel, net, reqs, serverworld, world
 
 ID = 'C17'
 LEVEL = 'fault_enumeration'
@@ -37,7 +37,14 @@ REQUESTS = ['Query', 'Create', 'Get']
 CASES = len(CERTS) * len(TLS) * len(PLUGINS) * len(REQUESTS)
 PER_PLAN = 96
 NPLANS = (CASES + PER_PLAN - 1) // PER_PLAN
-COUNT = {'quick': NPLANS, 'thorough': NPLANS}
+# second pass, through the real KmipServer front end: one server (real
+# configuration file -> KmipServerConfig -> KmipServer.start() -> serve() ->
+# _setup_connection_handler) per (enable_tls_client_auth, plugin list), all
+# certificate shapes x requests on each
+CONFIGS = len(TLS) * len(PLUGINS)
+CONF_PER_PLAN = 6
+NSRV = (CONFIGS + CONF_PER_PLAN - 1) // CONF_PER_PLAN
+COUNT = {'quick': NPLANS + NSRV, 'thorough': NPLANS + NSRV}
 BUDGET_S = {'quick': 80, 'thorough': 600}
 DETERMINISM = {'quick': 8, 'thorough': 30}
 CHUNK = 4
@@ -46,20 +53,29 @@ RULE = ('complete product: %d certificate shapes (absent; 0/1/2 distinct '
         'common names, the same name twice, three names x EKU absent / serverAuth only / clientAuth / both; real DER) '
         'x enable_tls_client_auth on/off x %d plugin configurations (none, '
         'and every list of 1-2 blocks over %s) x %d requests = %d cases, all '
-        'executed in every run. Non-trivial: every case (each is a distinct '
-        'configuration); distinct = case number.' % (
+        'executed in every run with the session constructed by the harness, '
+        'and all executed a second time with the session constructed by the '
+        'real KmipServer from a configuration file (enable_tls_client_auth '
+        'given in the file, as a constructor argument, or left to its '
+        'default). Non-trivial: every case (each is a distinct '
+        'configuration); distinct = case number (+ "srv").' % (
             len(CERTS), len(PLUGINS), BEHAVIOURS, len(REQUESTS), CASES))
 PROBES = ['engine_entered', 'auth_refused', 'second_plugin_vouched',
           'plugin_failed_then_refused', 'cn_fallback_without_plugins',
-          'users_5xx_recorded']
+          'users_5xx_recorded', 'sessions_made_by_kmip_server',
+          'tls_flag_from_default', 'tls_flag_from_kwarg']
 REAL_VS_STUB = {
     'real': ['KmipSession._handle_message_loop + authenticate',
+             'KmipServer.__init__/start/serve/_setup_connection_handler/stop '
+             'and KmipServerConfig on a real configuration file (second pass)',
              'auth.utils (certificate / EKU / CN extraction on real DER)',
              'SLUGSConnector', 'KmipEngine behind the session'],
     'stub': ['SLUGS HTTP service -> fake requests module scripted per URL '
              '(200 / 404 / 5xx / connection error / body that is not JSON)',
              'TLS handshake: the certificate is handed to the session by '
-             'the fake connection'],
+             'the fake connection',
+             'listening socket / ssl.wrap_socket / multiprocessing.Manager / '
+             'signal handlers of KmipServer -> in-process fakes'],
 }
 ASSUMPTIONS = [
     'a users-endpoint answer other than 404 (e.g. 500) is executed and '
@@ -76,7 +92,15 @@ def case_of(n):
     return CERTS[ce], TLS[tl], PLUGINS[pl], REQUESTS[rq]
 
 
+def case_number(ce, tl, pl, rq):
+    return ((ce * len(TLS) + tl) * len(PLUGINS) + pl) * len(REQUESTS) + rq
+
+
 def generate(rng, tier, index):
+    if index >= NPLANS:
+        lo = (index - NPLANS) * CONF_PER_PLAN
+        return {'configs': list(range(lo, min(CONFIGS, lo + CONF_PER_PLAN))),
+                'seed': 1}
     lo = index * PER_PLAN
     return {'cases': list(range(lo, min(CASES, lo + PER_PLAN))), 'seed': 1}
 
@@ -154,125 +178,180 @@ def model(cert, tls, plugins):
     return ('refuse',)
 
 
+def tls_source(tl, pl):
+    """How the second pass tells KmipServer the flag."""
+    if TLS[tl]:
+        return ('conf', 'kwarg', 'default')[pl % 3]
+    return ('conf', 'kwarg')[pl % 2]
+
+
 def execute(plan):
     probes = dict((p, 0) for p in PROBES)
     viol = []
-    W = world.World([{'cn': 'cn0'}], None, seed=plan['seed'])
+    server_mode = 'configs' in plan
+    if server_mode:
+        W = serverworld.ServerWorld([{'cn': 'cn0'}], None, seed=plan['seed'])
+    else:
+        W = world.World([{'cn': 'cn0'}], None, seed=plan['seed'])
     import kmip.services.server.auth.slugs as slugs_mod
     from kmip.services.server.session import KmipSession
     slugs_mod.requests = Slugs()
     results = []
+    seen = []
 
     def flag(oracle, **det):
         viol.append({'sig': {'oracle': oracle, 'why': det.get('why')},
                      'detail': det})
 
-    try:
-        # an object for Get, created by cn0 through the normal path
-        r0 = W.request({'actor': 0, 'ver': [1, 2], 'items': [{
-            'op': 'Register', 'label': 'k', 'otype': 'SymmetricKey',
-            'attrs': [gen.A('Cryptographic Usage Mask', 12)],
-            'obj': {'kft': 1, 'value': '22' * 16, 'alg': 3, 'len': 128}}]})
-        seen = []
+    def install_spy():
         real = W.engine.process_request
 
         def spy(request, credential=None):
             seen.append(credential)
             return real(request, credential)
         W.engine.process_request = spy
-        for n in plan['cases']:
-            cert, tls, plugins, rq = case_of(n)
-            der = None
-            if cert is not None:
-                der = net.make_certificate(names_of(cert[0]), cert[1])
-            conn = net.FakeConnection(der)
-            s = KmipSession(W.engine, conn, ('10.0.0.9', 1), name='c17',
-                            enable_tls_client_auth=tls,
-                            auth_settings=settings_for(plugins))
-            op = {'Query': {'op': 'Query', 'funcs': [1]},
-                  'Create': {'op': 'Create', 'attrs': [
-                      gen.A('Cryptographic Algorithm', 3),
-                      gen.A('Cryptographic Length', 128),
-                      gen.A('Cryptographic Usage Mask', 12)]},
-                  'Get': {'op': 'Get', 'uid': '@k'}}[rq]
-            frame = reqs.build_request({'ver': [1, 2], 'items': [op]},
-                                       W.resolve, now=W.clock.now)
-            before = W.dump()
-            del seen[:]
-            Slugs.calls = []
-            conn.feed(frame)
-            escape = None
-            try:
-                s._handle_message_loop()
-            except Exception as e:
-                escape = '%s: %s' % (type(e).__name__, e)
-            sent = conn.take_sent()
-            want = model(cert, tls, plugins)
-            case = {'case': n, 'cert': cert, 'tls': tls,
-                    'plugins': plugins, 'request': rq}
-            if escape or len(sent) != 1:
-                flag('not-exactly-one-response', why=escape, **case)
-                continue
-            resp = reqs.Response(sent[0])
-            entered = len(seen) > 0
-            results.append((n, entered,
-                            [i['reason'] for i in resp.items]))
-            if want[0] == 'unjudged':
-                probes['users_5xx_recorded'] += 1
-                continue
-            if want[0] == 'enter':
-                if not entered:
-                    flag('identity-established-but-request-refused',
-                         why=resp.items[0]['reason_name'], **case)
-                    continue
-                probes['engine_entered'] += 1
-                got = seen[0]
-                g_user = got[0] if got else None
-                g_groups = got[1] if got and len(got) > 1 else None
-                if len(seen) != 1 or g_user != want[1] or \
-                        (None if g_groups is None else list(g_groups)) != \
-                        want[2]:
-                    flag('wrong-identity-handed-to-engine', why=None,
-                         got=[g_user, g_groups], want=list(want[1:]),
-                         **case)
-                if plugins and plugins[0] not in ('ok', 'ok_nogroups') and \
-                        want[2] is not None:
-                    probes['second_plugin_vouched'] += 1
-                if want[2] is None and not [
-                        b for b in plugins
-                        if b not in ('disabled', 'unsupported')]:
-                    probes['cn_fallback_without_plugins'] += 1
-            else:
-                if entered:
-                    flag('request-processed-without-identity', why=None,
-                         credential=repr(seen[0]), **case)
-                    continue
-                probes['auth_refused'] += 1
-                if any(b not in ('disabled', 'unsupported')
-                       for b in plugins):
-                    probes['plugin_failed_then_refused'] += 1
-                it = resp.items[0]
-                if len(resp.items) != 1 or it['reason_name'] != \
-                        'AuthenticationNotSuccessful':
-                    flag('refusal-is-not-authentication-not-successful',
-                         why=it['reason_name'], **case)
-                if W.dump() != before:
-                    flag('refused-request-changed-store', why=None, **case)
+
+    def run_case(n, make_session, extra):
+        cert, tls, plugins, rq = case_of(n)
+        der = None
+        if cert is not None:
+            der = net.make_certificate(names_of(cert[0]), cert[1])
+        conn = net.FakeConnection(der)
+        case = {'case': n, 'cert': cert, 'tls': tls,
+                'plugins': plugins, 'request': rq}
+        case.update(extra)
+        s = make_session(conn, tls, plugins)
+        if s is None:
+            flag('server-created-no-session', why=None, **case)
+            return
+        op = {'Query': {'op': 'Query', 'funcs': [1]},
+              'Create': {'op': 'Create', 'attrs': [
+                  gen.A('Cryptographic Algorithm', 3),
+                  gen.A('Cryptographic Length', 128),
+                  gen.A('Cryptographic Usage Mask', 12)]},
+              'Get': {'op': 'Get', 'uid': '@k'}}[rq]
+        frame = reqs.build_request({'ver': [1, 2], 'items': [op]},
+                                   W.resolve, now=W.clock.now)
+        before = W.dump()
+        del seen[:]
+        Slugs.calls = []
+        conn.feed(frame)
+        escape = None
+        try:
+            s._handle_message_loop()
+        except Exception as e:
+            escape = '%s: %s' % (type(e).__name__, e)
+        sent = conn.take_sent()
+        want = model(cert, tls, plugins)
+        if escape or len(sent) != 1:
+            flag('not-exactly-one-response', why=escape, **case)
+            return
+        resp = reqs.Response(sent[0])
+        entered = len(seen) > 0
+        results.append((n, entered, [i['reason'] for i in resp.items]))
+        if want[0] == 'unjudged':
+            probes['users_5xx_recorded'] += 1
+            return
+        if want[0] == 'enter':
+            if not entered:
+                flag('identity-established-but-request-refused',
+                     why=resp.items[0]['reason_name'], **case)
+                return
+            probes['engine_entered'] += 1
+            got = seen[0]
+            g_user = got[0] if got else None
+            g_groups = got[1] if got and len(got) > 1 else None
+            if len(seen) != 1 or g_user != want[1] or \
+                    (None if g_groups is None else list(g_groups)) != \
+                    want[2]:
+                flag('wrong-identity-handed-to-engine', why=None,
+                     got=[g_user, g_groups], want=list(want[1:]),
+                     **case)
+            if plugins and plugins[0] not in ('ok', 'ok_nogroups') and \
+                    want[2] is not None:
+                probes['second_plugin_vouched'] += 1
+            if want[2] is None and not [
+                    b for b in plugins
+                    if b not in ('disabled', 'unsupported')]:
+                probes['cn_fallback_without_plugins'] += 1
+        else:
+            if entered:
+                flag('request-processed-without-identity', why=None,
+                     credential=repr(seen[0]), **case)
+                return
+            probes['auth_refused'] += 1
+            if any(b not in ('disabled', 'unsupported')
+                   for b in plugins):
+                probes['plugin_failed_then_refused'] += 1
+            it = resp.items[0]
+            if len(resp.items) != 1 or it['reason_name'] != \
+                    'AuthenticationNotSuccessful':
+                flag('refusal-is-not-authentication-not-successful',
+                     why=it['reason_name'], **case)
+            if W.dump() != before:
+                flag('refused-request-changed-store', why=None, **case)
+
+    try:
+        # an object for Get, created by cn0 through the normal path
+        W.request({'actor': 0, 'ver': [1, 2], 'items': [{
+            'op': 'Register', 'label': 'k', 'otype': 'SymmetricKey',
+            'attrs': [gen.A('Cryptographic Usage Mask', 12)],
+            'obj': {'kft': 1, 'value': '22' * 16, 'alg': 3, 'len': 128}}]})
+        cases = []
+        if not server_mode:
+            install_spy()
+
+            def direct(conn, tls, plugins):
+                return KmipSession(W.engine, conn, ('10.0.0.9', 1),
+                                   name='c17', enable_tls_client_auth=tls,
+                                   auth_settings=settings_for(plugins))
+            for n in plan['cases']:
+                cases.append(n)
+                run_case(n, direct, {})
+        else:
+            for c in plan['configs']:
+                tl, pl = divmod(c, len(PLUGINS))
+                src = tls_source(tl, pl)
+                W.auth_settings = settings_for(PLUGINS[pl])
+                W.server_opts = {
+                    'tls_client_auth_conf': TLS[tl] if src == 'conf'
+                    else None,
+                    'kwargs': {'enable_tls_client_auth': TLS[tl]}
+                    if src == 'kwarg' else {}}
+                if src == 'default':
+                    probes['tls_flag_from_default'] += 1
+                if src == 'kwarg':
+                    probes['tls_flag_from_kwarg'] += 1
+                W.restart()
+                install_spy()
+
+                def through_server(conn, tls, plugins):
+                    s = W.accept(conn, ('10.0.0.9', 1))
+                    if s is not None:
+                        probes['sessions_made_by_kmip_server'] += 1
+                    return s
+                for ce in range(len(CERTS)):
+                    for rq in range(len(REQUESTS)):
+                        n = case_number(ce, tl, pl, rq)
+                        cases.append(n)
+                        run_case(n, through_server,
+                                 {'via': 'KmipServer', 'flag_source': src})
         digest = kernel.digest_of(results)
         return {
             'violations': viol, 'nontrivial': True,
-            'nt_keys': ['case%d' % n for n in plan['cases']],
-            'key': digest, 'digest': digest, 'evals': len(plan['cases']),
-            'faults': {'404_user': sum(1 for n in plan['cases']
+            'nt_keys': ['%s%d' % ('srv' if server_mode else 'case', n)
+                        for n in cases],
+            'key': digest, 'digest': digest, 'evals': len(cases),
+            'faults': {'404_user': sum(1 for n in cases
                                        if 'user404' in case_of(n)[2]),
-                       'unreachable': sum(1 for n in plan['cases']
+                       'unreachable': sum(1 for n in cases
                                           if 'down_users' in case_of(n)[2]
                                           or 'down_groups' in case_of(n)[2]),
-                       'bad_json': sum(1 for n in plan['cases']
+                       'bad_json': sum(1 for n in cases
                                        if 'badjson' in case_of(n)[2])},
-            'probes': probes, 'sim_s': 0.0, 'steps': len(plan['cases']),
+            'probes': probes, 'sim_s': 0.0, 'steps': len(cases),
             'sample': [dict(zip(('cert', 'tls', 'plugins', 'request'),
-                                case_of(n))) for n in plan['cases'][:3]],
+                                case_of(n))) for n in cases[:3]],
         }
     finally:
         W.close()
